@@ -9,6 +9,9 @@ LEVEL = "translation_validation"
 
 
 def compile_case(args):
+    if len(args) > 4:
+        work, name, protos, options, rerun = args
+        return protoc.compile_event(work, name, protos, options, rerun=rerun)
     work, name, protos, options = args
     return protoc.compile_event(work, name, protos, options)
 
@@ -90,6 +93,14 @@ def run(ctx):
     corpus = repo_corpus()
     for name, protos in corpus:
         cases.append((ctx.work, "c_" + name, protos, ()))
+    ncorpus_end = len(cases)
+    # incremental generation: everything first, then one sub-package (or the parent) again into the same directory
+    inc = {"shop.proto": 'syntax = "proto3";\npackage shop;\nenum Tier { TIER_ZERO = 0; TIER_GOLD = 1; }\nmessage Customer { string name = 1; Tier tier = 2; }\n',
+           "shop/billing/b.proto": 'syntax = "proto3";\npackage shop.billing;\nmessage Invoice { int64 cents = 1; repeated string lines = 2; }\n',
+           "shop/billing/v2/c.proto": 'syntax = "proto3";\npackage shop.billing.v2;\nimport "shop/billing/b.proto";\nmessage Invoice2 { shop.billing.Invoice old = 1; }\n'}
+    cases.append((ctx.work, "inc_sub", inc, (), ["shop/billing/b.proto"]))
+    cases.append((ctx.work, "inc_leaf", inc, (), ["shop/billing/v2/c.proto"]))
+    cases.append((ctx.work, "inc_parent", inc, (), ["shop.proto"]))
     events = ctx.pmap(compile_case, cases, chunk=2)
     for c, e in zip(cases, events):
         e["case"]["name"] = c[1]
